@@ -1,8 +1,158 @@
-import RNacos.Model.LogFile
-/-! # C03 — (theorems under construction) -/
-namespace RNacos.Props.C03
-open RNacos.LogFile
+import RNacos.Lemmas.LogHistory
+/-!
+# C03 — Raft log: truncation removes exactly the suffix; log stays appendable
 
-example : (write (create 1 0 0) ⟨1, 1, [7]⟩).2 = .success := by decide
+Same model and invariant as C02 (`RNacos/Model/LogFile.lean`, `WF f es`).  The theorems are stated for every
+file that holds some entry list `es` – any number of index entries, any record sizes, any cursor state, freshly
+written or reopened – and every cut point `k`.
+-/
+namespace RNacos.Props.C03
+open RNacos.LogFile RNacos.Spec.Stream
+
+/-- **the cut**: deleting from `k` (inside the log) leaves a file that holds exactly the entries below `k` -/
+theorem truncate_keeps_prefix (f : LogFile) (es : List Rec) (k : Nat) (h : WF f es)
+    (hs : f.startIndex ≤ k) (hlt : k < endIndex f) :
+    ∃ f', strip f k = some f' ∧ WF f' (es.take (k - f.startIndex)) ∧ endIndex f' = k := by
+  obtain ⟨f', hf', hw⟩ := strip_wf f es k h hs hlt
+  refine ⟨f', hf', hw, ?_⟩
+  have hend := endIndex_wf f es h
+  rw [endIndex_wf f' _ hw, List.length_take]
+  have hst : f'.startIndex = f.startIndex := by
+    have hs' : ¬ (k ≥ endIndex f) := by omega
+    unfold strip at hf'
+    simp only [hs', if_false] at hf'
+    split at hf'
+    · cases hf'
+    · cases hf'
+      unfold refreshTerm
+      split
+      · split
+        · simp only [stripCore]; split <;> rfl
+        · simp only [stripCore]; split <;> rfl
+      · simp only [stripCore]; split <;> rfl
+  rw [hst]; omega
+
+/-- every entry below `k` is still there, unchanged -/
+theorem below_cut_unchanged (es : List Rec) (n i : Nat) (hi : i < n) (hn : n ≤ es.length) :
+    (es.take n)[i]'(by simp; omega) = es[i]'(by omega) := by
+  simp
+
+/-- **entries at or above `k` are unreadable**: whatever is read afterwards has an index below `k` -/
+theorem above_cut_unreadable (f : LogFile) (es : List Rec) (k : Nat) (h : WF f es)
+    (hs : f.startIndex ≤ k) (hlt : k < endIndex f) (f' : LogFile) (hf' : strip f k = some f') (a b : Nat)
+    (rs : List Rec) (hr : readRecords f' a b = some rs) : ∀ r ∈ rs, r.index < k := by
+  obtain ⟨g, hg, hw, he⟩ := truncate_keeps_prefix f es k h hs hlt
+  rw [hf'] at hg; cases hg
+  rw [read_wf f' _ a b hw] at hr
+  cases hr
+  intro r hr
+  have hmem : r ∈ es.take (k - f.startIndex) := List.mem_of_mem_drop (List.mem_of_mem_take hr)
+  obtain ⟨i, hi, rfl⟩ := List.getElem_of_mem hmem
+  rw [hw.idx i hi]
+  have : i < k - f.startIndex := by simp at hi; omega
+  have hst : f'.startIndex + (es.take (k - f.startIndex)).length = k := by rw [← endIndex_wf f' _ hw]; exact he
+  simp at hst hi
+  omega
+
+/-- a truncation never fills a file: the index cursor and the data cursor only move back -/
+theorem strip_not_full (f : LogFile) (es : List Rec) (k : Nat) (h : WF f es) (hs : f.startIndex ≤ k)
+    (hlt : k < endIndex f) (f' : LogFile) (hf' : strip f k = some f') (hfull : isFull f = false) :
+    isFull f' = false := by
+  obtain ⟨g, hg, hw, _⟩ := truncate_keeps_prefix f es k h hs hlt
+  rw [hf'] at hg; cases hg
+  have hend := endIndex_wf f es h
+  have hn : k - f.startIndex ≤ es.length := by omega
+  unfold isFull at hfull ⊢
+  simp only [Bool.or_eq_false_iff, decide_eq_false_iff_not] at hfull ⊢
+  have hst : f'.startIndex = f.startIndex ∧ f'.interval = f.interval ∧ f'.areaEnd = f.areaEnd := by
+    have hs' : ¬ (k ≥ endIndex f) := by omega
+    unfold strip at hf'
+    simp only [hs', if_false] at hf'
+    split at hf'
+    · cases hf'
+    · cases hf'
+      unfold refreshTerm
+      split
+      · split
+        · simp only [stripCore]; split <;> exact ⟨rfl, rfl, rfl⟩
+        · simp only [stripCore]; split <;> exact ⟨rfl, rfl, rfl⟩
+      · simp only [stripCore]; split <;> exact ⟨rfl, rfl, rfl⟩
+  have hic : f'.indexCursor ≤ f.indexCursor := by
+    rw [hw.ic, h.ic, hst.2.1]
+    unfold idxBytes
+    rw [List.length_take, Nat.min_eq_left hn]
+    have hjn : (k - f.startIndex) / f.interval * f.interval ≤ k - f.startIndex := Nat.div_mul_le_self _ _
+    rw [idxBytesUpTo_take f.interval es (k - f.startIndex) _ hjn]
+    have := idxBytesUpTo_mono f.interval es ((k - f.startIndex) / f.interval) (es.length / f.interval)
+      (Nat.div_le_div_right hn)
+    omega
+  have hdc : f'.dataCursor ≤ f.dataCursor := by
+    rw [hw.dc, h.dc, offsetOf_take_end es _ hn]
+    exact offsetOf_mono es _ _ hn
+  rw [hst.2.2]
+  omega
+
+/-- **the log stays appendable**: the next append at index `k` is accepted and becomes the last entry -/
+theorem append_at_cut_accepted (f : LogFile) (es : List Rec) (k : Nat) (h : WF f es) (hs : f.startIndex ≤ k)
+    (hlt : k < endIndex f) (f' : LogFile) (hf' : strip f k = some f') (hfull : isFull f = false)
+    (r : Rec) (hr : RecOK r) (hk : r.index = k) (hsz : f'.dataCursor + (frame (recBody r)).length < 2 ^ 64) :
+    WF (write f' r).1 (es.take (k - f.startIndex) ++ [r]) ∧
+      ((write f' r).2 = .success ∨ (write f' r).2 = .successToEnd) := by
+  obtain ⟨g, hg, hw, he⟩ := truncate_keeps_prefix f es k h hs hlt
+  rw [hf'] at hg; cases hg
+  have hnf := strip_not_full f es k h hs hlt f' hf' hfull
+  obtain ⟨h1, _, h3⟩ := write_wf f' _ r hw hnf (by rw [he]; exact hk) hr hsz
+  exact ⟨h1, h3⟩
+
+/-- **before and after a restart, and whatever is appended later**: the removed suffix never comes back.
+After the cut, any further history – appends of shorter, equal or longer records, more cuts, reopens – leaves
+a file that holds exactly the specified log, which no longer contains the removed entries. -/
+theorem removed_never_returns (f : LogFile) (es : List Rec) (k : Nat) (h : WF f es) (hs : f.startIndex ≤ k)
+    (hlt : k < endIndex f) (f' : LogFile) (hf' : strip f k = some f') (ops : List Op) (hok : HistOK f' ops) :
+    WF (run (f', es.take (k - f.startIndex)) ops).1 (run (f', es.take (k - f.startIndex)) ops).2 := by
+  obtain ⟨g, hg, hw, _⟩ := truncate_keeps_prefix f es k h hs hlt
+  rw [hf'] at hg; cases hg
+  exact run_wf ops f' _ hw hok
+
+/-- the term reported after the cut is that of the last remaining entry -/
+theorem truncate_reports_last_term (f : LogFile) (es : List Rec) (k : Nat) (h : WF f es)
+    (hs : f.startIndex < k) (hlt : k < endIndex f) (hsp : f.splitOff < k) (f' : LogFile) (hf' : strip f k = some f')
+    (hne : es.take (k - f.startIndex) ≠ []) :
+    f'.lastTerm = ((es.take (k - f.startIndex)).getLast hne).term := by
+  have hend := endIndex_wf f es h
+  have hs' : ¬ (k ≥ endIndex f) := by omega
+  unfold strip at hf'
+  simp only [hs', if_false] at hf'
+  rw [findIdx_layout f es k h.ivl h.indexs h.bound (by omega) (by omega)] at hf'
+  cases hf'
+  have hw := stripCore_wf' f es k _ _ _ h rfl rfl rfl (by omega) (by omega)
+  have hek : endIndex (stripCore f k (entry f.startIndex f.interval es ((k - f.startIndex) / f.interval))
+      (tailLen f.interval es (es.length / f.interval) ((k - f.startIndex) / f.interval))
+      (es.length / f.interval - (k - f.startIndex) / f.interval)) = k := by
+    rw [endIndex_wf _ _ hw, List.length_take]
+    have : (stripCore f k (entry f.startIndex f.interval es ((k - f.startIndex) / f.interval))
+      (tailLen f.interval es (es.length / f.interval) ((k - f.startIndex) / f.interval))
+      (es.length / f.interval - (k - f.startIndex) / f.interval)).startIndex = f.startIndex := by
+      simp only [stripCore]; split <;> rfl
+    rw [this]; omega
+  apply refreshTerm_lastTerm _ _ k hw hne hek.symm
+  rw [hek]
+  have : (stripCore f k (entry f.startIndex f.interval es ((k - f.startIndex) / f.interval))
+      (tailLen f.interval es (es.length / f.interval) ((k - f.startIndex) / f.interval))
+      (es.length / f.interval - (k - f.startIndex) / f.interval)).splitOff = f.splitOff := by
+    simp only [stripCore]; split <;> rfl
+  rw [this]; exact hsp
+
+/-- a cut at or beyond the end is a no-op; a cut below the file's first index is refused, the file unchanged -/
+theorem truncate_outside (f : LogFile) (es : List Rec) (k : Nat) (h : WF f es) :
+    (endIndex f ≤ k → strip f k = some f) ∧ (k < f.startIndex → strip f k = none) :=
+  ⟨strip_noop f k, strip_below f es k h⟩
+
+/-! ### non-vacuity -/
+example :
+    let f := (run (create 1 0 0, []) [.append ⟨1, 1, [7]⟩, .append ⟨2, 1, [8, 8]⟩, .append ⟨3, 2, [9]⟩]).1
+    f.startIndex ≤ 2 ∧ 2 < endIndex f ∧ (strip f 2).isSome ∧
+    ((strip f 2).map fun g => readRecords g 0 9) = some (some [⟨1, 1, [7]⟩]) := by
+  decide +kernel
 
 end RNacos.Props.C03
